@@ -159,9 +159,9 @@ impl Env {
         (match r { Ok(Ok(())) => 0, Ok(Err(_)) => 1, Err(_) => 2 }, m)
     }
 
-    /// C10 (1): fail every write call of a save in turn (needs patches/hook-rdb-failat.diff in /repo
-    /// and `--cfg ferrous_verif_rdb_failat` for this crate)
-    #[cfg(ferrous_verif_rdb_failat)]
+    /// C10 (1): fail every write call of a save in turn (hook 23b5491: storage::rdb::verif, compiled
+    /// under the ordinary `--cfg ferrous_verif`)
+    #[cfg(ferrous_verif)]
     fn failsweep(&mut self) -> Vec<Tok> {
         use ferrous::storage::rdb::verif;
         let rdb = self.rdb(); let eng = self.eng.clone();
@@ -180,9 +180,111 @@ impl Env {
         let later = rdb.save(&eng).is_ok() && { self.clear_engine(); self.load_current().0 == 0 };
         vec![Tok::I(n as i128), i(all_err as i64), i(unchanged as i64), i(later as i64)]
     }
-    #[cfg(not(ferrous_verif_rdb_failat))]
+    /// C10 (1), background path: RdbEngine::bgsave with an armed write failure must be accepted, its
+    /// thread must end with the in-progress flag cleared and the dump untouched, and a later
+    /// bgsave must be accepted and publish the newer data.
+    #[cfg(ferrous_verif)]
+    fn bgsweep(&mut self) -> Vec<Tok> {
+        use ferrous::storage::rdb::verif;
+        let rdb = self.rdb(); let eng = self.eng.clone();     // ONE RdbEngine: the flag lives in it
+        let wait_idle = |rdb: &RdbEngine| -> bool {
+            let t0 = Instant::now();
+            while rdb.is_bgsave_in_progress() { if t0.elapsed() > Duration::from_secs(3) { return false; } std::thread::sleep(Duration::from_millis(1)); }
+            true
+        };
+        verif::fail_at(-1);
+        let ok0 = rdb.save(&eng).is_ok();
+        let n = verif::calls() as i64;
+        let before = std::fs::read(self.file()).ok();
+        // data newer than the dump
+        let _ = eng.set_string(0, b"bgsweep-newer".to_vec(), b"1".to_vec());
+        let (mut accepted, mut cleared, mut unchanged) = (ok0, true, before.is_some());
+        let mut ks: Vec<i64> = vec![0, 1, n / 3, n / 2, n - 2, n - 1];
+        ks.retain(|k| *k >= 0 && *k < n); ks.dedup();
+        for k in ks {
+            verif::fail_at(k);
+            if rdb.bgsave(eng.clone()).is_err() { accepted = false; }
+            if !wait_idle(&rdb) { cleared = false; break; }
+            if std::fs::read(self.file()).ok() != before { unchanged = false; }
+        }
+        // a later undisturbed bgsave
+        verif::fail_at(-1);
+        let later = rdb.bgsave(eng.clone()).is_ok() && wait_idle(&rdb);
+        let has_newer = |me: &mut Env| -> bool {
+            me.clear_engine();
+            let ok = me.load_current().0 == 0;
+            let r = ok && matches!(me.eng.get_string(0, b"bgsweep-newer"), Ok(Some(_)));
+            r
+        };
+        let eng_keep = self.eng.clone();
+        self.eng = StorageEngine::new();
+        let newer = has_newer(self);
+        self.eng = eng_keep;
+        // failing SAVE then BGSAVE; failing BGSAVE then SAVE
+        let eng = self.eng.clone();
+        let _ = eng.set_string(0, b"bgsweep-newer2".to_vec(), b"2".to_vec());
+        let b2 = std::fs::read(self.file()).ok();
+        verif::fail_at(n / 2);
+        let m1 = rdb.save(&eng).is_err() && std::fs::read(self.file()).ok() == b2;
+        verif::fail_at(-1);
+        let m2 = rdb.bgsave(eng.clone()).is_ok() && wait_idle(&rdb) && std::fs::read(self.file()).ok() != b2;
+        let b3 = std::fs::read(self.file()).ok();
+        verif::fail_at(n / 2);
+        let m3 = rdb.bgsave(eng.clone()).is_ok() && wait_idle(&rdb) && std::fs::read(self.file()).ok() == b3;
+        verif::fail_at(-1);
+        let m4 = rdb.save(&eng).is_ok();
+        let _ = eng.delete(0, b"bgsweep-newer"); let _ = eng.delete(0, b"bgsweep-newer2");
+        let _ = rdb.save(&eng);
+        vec![Tok::I(n as i128), i(accepted as i64), i(cleared as i64), i(unchanged as i64), i(later as i64), i(newer as i64), i((m1 && m2 && m3 && m4) as i64)]
+    }
+    #[cfg(not(ferrous_verif))]
+    fn bgsweep(&mut self) -> Vec<Tok> { vec![b("NOHOOK")] }
+    #[cfg(not(ferrous_verif))]
     fn failsweep(&mut self) -> Vec<Tok> { vec![b("NOHOOK")] }
-    pub fn has_failat_hook() -> bool { cfg!(ferrous_verif_rdb_failat) }
+    pub fn has_failat_hook() -> bool { cfg!(ferrous_verif) }
+
+    /// C10 (2): saves racing with a writer that flips one key between ("old", no TTL) and
+    /// ("new", TTL): a loaded snapshot holding ("old", TTL) or ("new", no TTL) is a pair the key
+    /// never had (value read by storage.get, TTL by a later storage.ttl)
+    fn tearstress(&mut self, iters: usize) -> (usize, usize, usize) {
+        use std::sync::atomic::{AtomicBool, Ordering};
+        let eng = self.eng.clone();
+        let rdb = RdbEngine::new(RdbConfig { filename: "tear.rdb".into(), dir: self.dir.to_string_lossy().to_string(), ..Default::default() });
+        let probe = StorageEngine::new();
+        let stop = Arc::new(AtomicBool::new(false));
+        let (e2, s2) = (eng.clone(), stop.clone());
+        let _ = eng.set_string(15, b"tear-k".to_vec(), b"old".to_vec());
+        let _ = eng.zadd(15, b"tear-z".to_vec(), b"m1".to_vec(), 1.0);
+        let h = std::thread::spawn(move || {
+            while !s2.load(Ordering::Relaxed) {
+                let _ = e2.set_string(15, b"tear-k".to_vec(), b"old".to_vec());
+                let _ = e2.zadd(15, b"tear-z".to_vec(), b"m2".to_vec(), 2.0);
+                let _ = e2.set_string_ex(15, b"tear-k".to_vec(), b"new".to_vec(), Duration::from_secs(100_000));
+                let _ = e2.zrem(15, b"tear-z", b"m2");
+            }
+        });
+        let (mut torn, mut runs, mut torn_z) = (0, 0, 0);
+        for _ in 0..iters {
+            if rdb.save(&eng).is_err() { continue; }
+            for d in 0..16 { let _ = probe.flush_db(d); }
+            // the sorted set is shared with the save thread (Arc): its count is written before its
+            // items are read; when they disagree the file does not parse as written
+            let loaded = catch_unwind(AssertUnwindSafe(|| rdb.load(&probe)));
+            let zbad = match probe.zrange(15, b"tear-z", 0, -1, false) {
+                Ok(items) => items.iter().any(|(m, _)| m != b"m1" && m != b"m2"),
+                Err(_) => true,
+            };
+            if !matches!(loaded, Ok(Ok(()))) || zbad { torn_z += 1; continue; }
+            runs += 1;
+            let v = probe.get_string(15, b"tear-k").ok().flatten();
+            let ttl = probe.ttl(15, b"tear-k").ok().flatten();
+            match (v.as_deref(), ttl.is_some()) { (Some(b"old"), true) | (Some(b"new"), false) => torn += 1, _ => {} }
+        }
+        stop.store(true, Ordering::Relaxed); let _ = h.join();
+        let _ = eng.delete(15, b"tear-k"); let _ = eng.delete(15, b"tear-z");
+        let _ = std::fs::remove_file(self.dir.join("tear.rdb"));
+        (torn, runs, torn_z)
+    }
 
     /// one op: (rewritten op, output)
     pub fn op(&mut self, prop: &str, op: &[Tok]) -> (Vec<Tok>, Vec<Tok>) {
@@ -297,6 +399,19 @@ impl Env {
                 nop.truncate(2); nop.push(Tok::I(w));
                 self.failsweep()
             }
+            b"BGSWEEP" => {
+                let w = wall_ms();
+                nop.truncate(2); nop.push(Tok::I(w));
+                self.bgsweep()
+            }
+            b"TEARSTRESS" => {
+                // op[2] = number of saves; the observation (torn snapshots, saves) goes into the op:
+                // it depends on the schedule and is judged, not compared
+                let iters = tok_int(&op[2]) as usize;
+                let (torn, runs, torn_z) = self.tearstress(iters);
+                nop.truncate(3); nop.push(Tok::I(torn as i128)); nop.push(Tok::I(runs as i128)); nop.push(Tok::I(torn_z as i128));
+                vec![i(1)]
+            }
             b"PROBE" => {
                 let w = wall_ms();
                 nop.truncate(2); nop.push(Tok::I(w)); nop.push(i(self.chk as i64));
@@ -364,8 +479,8 @@ fn gen_value(r: &mut Rng, ops: &mut Vec<Vec<Tok>>, db: i64, key: &[u8], ty: u64,
         0 => { let v = blob(r, n); push(ops, "SET", vec![bv(&v), Tok::I(ttl)]); return; }
         1 => {
             let mut els: Vec<Vec<u8>> = if n > 200 { distinct(r, n) } else { (0..n.max(1)).map(|_| small(r)).collect() };
-            // the head of a list is never the marker in the regular stream (class marker-collision has its own cases)
-            if els[0] == MARKER { els[0] = b"head".to_vec(); }
+            // lists that start with the stream marker are ordinary citizens since 6aaeb35
+            if r.chance(1, 12) { els[0] = MARKER.to_vec(); }
             for ch in els.chunks(5000) { push(ops, "RPUSH", ch.iter().map(|x| bv(x)).collect()); }
         }
         2 => {
@@ -389,7 +504,7 @@ fn gen_value(r: &mut Rng, ops: &mut Vec<Vec<Tok>>, db: i64, key: &[u8], ty: u64,
         _ => {
             let mut ms = r.below(3) as u64; let mut sq = 1 + r.below(3) as u64;
             for _ in 0..n.max(1) {
-                let nf = if n > 50 { 1 } else { 1 + r.below(3) as usize };
+                let nf = if n > 50 { 1 } else { r.below(4) as usize };     // 0 fields: storage API only (31c6d8d)
                 let mut a = vec![Tok::I(ms as i128), Tok::I(sq as i128)];
                 for f in 0..nf { let fname = if r.chance(1, 4) { small(r) } else { format!("f{}", f).into_bytes() }; a.push(bv(&fname)); a.push(bv(&small(r))); }
                 push(ops, "XADD", a);
@@ -483,6 +598,12 @@ pub fn gen(seed: u64, n: usize, tier: &str) -> Vec<Case> {
             let ttl = gen_ttl(&mut r, down);
             gen_value(&mut r, &mut ops, db, &key, ty, sz, ttl);
             if r.chance(1, 10) {
+                // a stream emptied again (the key stays, 1a77fe9)
+                let sk = r.pick(&pool).clone();
+                let mut o = op_t("XADD"); o.push(i(db)); o.push(bv(&sk)); o.push(i(1)); o.push(i(1)); o.push(bv(b"f")); o.push(bv(b"v")); ops.push(o);
+                let mut o = op_t("XDEL"); o.push(i(db)); o.push(bv(&sk)); o.push(i(1)); o.push(i(1)); ops.push(o);
+            }
+            if r.chance(1, 10) {
                 // a sorted-set member re-scored, an element repeated in a set, a hash field overwritten
                 for sc in [0x3ff0000000000000u64, *r.pick(SCORES)] { let mut o = op_t("ZADD"); o.push(i(db)); o.push(bv(&key)); o.push(bv(b"rescored")); o.push(Tok::I(sc as i128)); ops.push(o); }
             }
@@ -515,24 +636,25 @@ pub fn gen(seed: u64, n: usize, tier: &str) -> Vec<Case> {
         ops.push(op_t("RELOAD")); ops.push(op_t("DUMP"));
         add("expired-before-save", ops, &mut id);
     }
-    // (e) the known classes, kept apart from the regular stream
+    // (e) regression cases of the repaired classes marker-collision (6aaeb35), empty-stream-lost
+    // (1a77fe9), stream-entry-without-fields (31c6d8d)
     {
         let mut ops = vec![];
         let mut o = op_t("RPUSH"); o.push(i(0)); o.push(bv(b"l")); o.push(bv(MARKER)); o.push(bv(b"x")); ops.push(o);
         let mut o = op_t("RPUSH"); o.push(i(0)); o.push(bv(b"l2")); o.push(bv(MARKER)); o.push(bv(b"1-1")); o.push(bv(b"1")); o.push(bv(b"f")); o.push(bv(b"v")); ops.push(o);
         tail(&mut ops, 0);
-        add("class-marker", ops, &mut id);
+        add("regress-marker", ops, &mut id);
         let mut ops = vec![];
         let mut o = op_t("XADD"); o.push(i(0)); o.push(bv(b"st")); o.push(i(5)); o.push(i(1)); o.push(bv(b"f")); o.push(bv(b"v")); ops.push(o);
         let mut o = op_t("XDEL"); o.push(i(0)); o.push(bv(b"st")); o.push(i(5)); o.push(i(1)); ops.push(o);
         tail(&mut ops, 0);
-        add("class-emptystream", ops, &mut id);
+        add("regress-emptystream", ops, &mut id);
         let mut ops = vec![];
         let mut o = op_t("XADD"); o.push(i(0)); o.push(bv(b"st")); o.push(i(5)); o.push(i(1)); o.push(bv(b"f")); o.push(bv(b"v")); ops.push(o);
         let mut o = op_t("XADD"); o.push(i(0)); o.push(bv(b"st")); o.push(i(6)); o.push(i(0)); ops.push(o);   // an entry without fields, last
         let mut o = op_t("SET"); o.push(i(0)); o.push(bv(b"zz")); o.push(bv(b"after")); o.push(i(-1)); ops.push(o);
         tail(&mut ops, 0);
-        add("class-nofields", ops, &mut id);
+        add("regress-nofields", ops, &mut id);
     }
     cases
 }
@@ -565,25 +687,10 @@ fn parse_dump(t: &[Tok]) -> Option<Vec<KeyRow>> {
     Some(rows)
 }
 
-fn class_of(before: &KeyRow) -> Option<&'static str> {
-    match before.val.first() {
-        Some(Tok::I(1)) => if before.val.get(2).map(|x| x == &bv(MARKER)).unwrap_or(false) { Some("marker-collision") } else { None },
-        Some(Tok::I(4)) => {
-            // a member with two nodes (a member re-scored while its score was NaN: C04's defect)
-            let n = tok_int(&before.val[1]) as usize;
-            let mut seen = std::collections::HashSet::new();
-            for j in 0..n { if !seen.insert(tok_bytes(&before.val[2 + 2 * j]).to_vec()) { return Some("zset-nan-duplicate-node"); } }
-            None
-        }
-        Some(Tok::I(5)) => {
-            if before.val.get(1) == Some(&i(0)) { return Some("empty-stream-lost"); }
-            // an entry without fields
-            let mut p = 2; let n = tok_int(&before.val[1]);
-            for _ in 0..n { let nf = tok_int(&before.val[p + 2]); if nf == 0 { return Some("stream-entry-without-fields"); } p += 3 + 2 * nf as usize; }
-            None
-        }
-        _ => None,
-    }
+fn class_of(_before: &KeyRow) -> Option<&'static str> {
+    // every class this oracle used to recognise by the shape of the dataset (marker head, empty
+    // stream, entry without fields, NaN duplicate) has been repaired in /repo
+    None
 }
 
 /// C09 on the implementation alone: the dump after (save, restart) equals the dump before,
